@@ -26,6 +26,7 @@ def make_man_class():
             self.pre = []        # dict per _handle_event entry
             self.suspend = []
             self.suspend_map = {}  # event name -> seconds the client's handler suspends on every such event
+            self.raise_map = {}    # event name -> how many times the client's handler raises when it is told that event
             self._stacks = {}
             self.resets = []     # (t_start, t_end, state/facade/spa/descriptors at return)
 
@@ -59,6 +60,9 @@ def make_man_class():
                 "descriptors": self._spa_descriptors is not None,
                 "text": ss.state if ss is not None else None,
                 "task": task.get_name() if task else "?", "pre_ix": stack[-1]["ix"] if stack else None})
+            if self.raise_map.get(event.name, 0) > 0:
+                self.raise_map[event.name] -= 1
+                raise RuntimeError(f"client handler fails on {event.name}")
             d = self.suspend_map.get(event.name, 0.0)
             if not d and self.suspend:
                 d = self.suspend.pop(0)
